@@ -590,7 +590,7 @@ def run(ctx):
     finally:
         pool.close()
     # part 3: histories
-    st = explore.bfs(ctx, FACTORY, {'pool': 8}, max_depth=3 if quick else 5, ops_chunk=6)
+    st = explore.bfs(ctx, FACTORY, {'pool': 8}, max_depth=4 if quick else 6, ops_chunk=6)
     ctx.coverage.update({
         'states': st['states'] + len(combos), 'transitions': st['transitions'] + nparse + nprobe,
         'traces_validated_against_impl': st['transitions'] + nparse + nprobe,
